@@ -7,4 +7,3 @@ import SpgProofs.Properties.C14
 #print axioms Spg.C14.no_global_or_captured_writes
 #print axioms Spg.C14.pointer_calls
 #print axioms Spg.C14.package_state
-#print axioms Spg.C14.facts_nonvacuous
